@@ -30,6 +30,13 @@ pub fn make_file_logger(path: &str) -> std::io::Result<&'static impl Log> {
     LOGGER.get_or_try_init(|| FileLogger::new(path))
 }
 
+/// The TLS library traces whole handshake messages, among them the ClientHello with its
+/// server name, which may carry credentials: such records do not belong in the log
+fn is_loggable(metadata: &Metadata) -> bool {
+    metadata.level() <= log::max_level()
+        && !(metadata.level() == log::Level::Trace && metadata.target().starts_with("rustls"))
+}
+
 fn write_record(mut w: impl Write, record: &Record) -> std::io::Result<()> {
     writeln!(
         w,
@@ -44,7 +51,7 @@ fn write_record(mut w: impl Write, record: &Record) -> std::io::Result<()> {
 
 impl Log for StdoutLogger {
     fn enabled(&self, metadata: &Metadata) -> bool {
-        metadata.level() <= log::max_level()
+        is_loggable(metadata)
     }
 
     fn log(&self, record: &Record) {
@@ -72,7 +79,7 @@ impl FileLogger {
 
 impl Log for FileLogger {
     fn enabled(&self, metadata: &Metadata) -> bool {
-        metadata.level() <= log::max_level()
+        is_loggable(metadata)
     }
 
     fn log(&self, record: &Record) {
